@@ -27,6 +27,13 @@ pub enum Op {
     RecvAsync,
     /// async recv future polled once, then dropped
     RecvPollDrop,
+    /// blocking / awaited recv_batch(max)
+    RecvBatch(usize),
+    TryRecvBatch(usize),
+    /// recv_timeout(1 h): parks like recv (hook H7), never times out inside a model run
+    RecvTLong,
+    CloseTx,
+    CloseRx,
     CloneRx,
     DropRx,
     // locks
@@ -65,6 +72,10 @@ pub enum Res {
     BatchOk(usize),
     BatchErr { sent: usize, unsent: Vec<Id> },
     Val(Id),
+    /// batch receive
+    Vals(Vec<Id>),
+    /// close() on a handle that was closed before
+    CloseErr,
     Empty,
     Disc,
     Timeout,
